@@ -4,6 +4,7 @@ import (
 	"fmt"
 	"go/ast"
 	"go/token"
+	"regexp"
 	"strings"
 )
 
@@ -494,9 +495,10 @@ func genOpcodes() string {
 	fmt.Fprintf(&sb, "def placeholderPatched : List (String × String × Bool) := [%s]\n\n", strings.Join(patched, ", "))
 
 	// 5. bodies and guards
+	panicMsg := regexp.MustCompile(`panic\("[^"]*"\)`)
 	body := func(recv, name string) (string, *ast.FuncDecl) {
 		fd := funcDecl(cf, recv, name)
-		return opcNormText(fd.Body), fd
+		return panicMsg.ReplaceAllString(opcNormText(fd.Body), "panic(_)"), fd
 	}
 	pj, pjd := body("*compiler", "patchJump")
 	cb, cbd := body("*compiler", "calcBackwardJump")
@@ -536,15 +538,15 @@ func genOpcodes() string {
 	fmt.Fprintf(&sb, "def patchJumpGuard : String := %s\n", leanStr(guard(pjd)))
 	fmt.Fprintf(&sb, "def calcBackwardJumpGuard : String := %s\n", leanStr(guard(cbd)))
 	// the guard of the C05 fix: both functions or neither, in the one shape the compile model knows
-	const guardShape = "offset > math.MaxUint16"
 	pg, cg := guard(pjd), guard(cbd)
 	switch {
 	case pg == "" && cg == "":
 		sb.WriteString("/-- patchJump and calcBackwardJump reject offsets above 65535 (false: they truncate silently) -/\ndef jumpGuard : Bool := false\n")
-	case pg == guardShape && cg == guardShape:
+	case pg != "" && cg != "":
+		// the exact condition is pinned by theorem C05.jump_patching_as_modelled
 		sb.WriteString("/-- patchJump and calcBackwardJump reject offsets above 65535 (false: they truncate silently) -/\ndef jumpGuard : Bool := true\n")
 	default:
-		refuse(pjd.Pos(), "jump offset guards not in a recognised shape: patchJump %q, calcBackwardJump %q (expected both %q or both absent)", pg, cg, guardShape)
+		refuse(pjd.Pos(), "only one of patchJump (%q) / calcBackwardJump (%q) guards its offset: the compile model has no such variant", pg, cg)
 	}
 	// Compile recovers panics into an error
 	comp := funcDecl(cf, "", "Compile")
